@@ -1,6 +1,7 @@
 import typing as tp
 from collections.abc import KeysView
 import operator as operator_mod
+from itertools import chain
 from itertools import zip_longest
 from functools import reduce
 from copy import deepcopy
@@ -1427,11 +1428,11 @@ class _IndexGOMixin:
             raise KeyError(f'duplicate key append attempted: {value}')
 
         # we might need to initialize map if not an increment that keeps loc_is_iloc relationship
-        initialize_map = False
         if self._map is None: # loc_is_iloc
             if not (isinstance(value, INT_TYPES)
                     and value == self._positions_mutable_count):
-                initialize_map = True
+                # build the map before mutating any storage: a value equal to a held position (1.0 for 1) is rejected here
+                self._map = AutoMap(chain(self._labels_mutable, (value,)))
         else:
             self._map.add(value)
 
@@ -1443,9 +1444,6 @@ class _IndexGOMixin:
             self._labels_mutable_dtype = dtype_from_element(value)
 
         self._labels_mutable.append(value)
-
-        if initialize_map:
-            self._map = AutoMap(self._labels_mutable)
 
         self._positions_mutable_count += 1
         self._recache = True
